@@ -79,6 +79,9 @@ func (p *fakeProc) Open(ctx context.Context) error {
 	p.mu.Lock()
 	gen := p.gen
 	p.mu.Unlock()
+	if h := p.w.Hooks.OnProcOpen; h != nil {
+		h(p.spec.ID, gen)
+	}
 	if p.spec.OpenFailGen != 0 && strconv.Itoa(p.spec.OpenFailGen) == gen {
 		p.w.Log.Add(Event{Kind: EvProcOpen, Comp: p.spec.ID, Inst: p.inst, Src: -1, Seq: -1, Gen: gen, Info: "open-fails"})
 		return fmt.Errorf("%s: processor %s cannot open gen %s", Marker, p.spec.ID, gen)
